@@ -10,6 +10,7 @@ import (
 //verif:harness VerifC17_Ops quick.maxpaths=400000 thorough.maxpaths=3000000 timeout=2400 poolreuse
 //verif:harness VerifC17_Paths quick.maxpaths=80000 thorough.maxpaths=400000 timeout=2400
 //verif:harness VerifC17_PathBytes quick.maxpaths=60000 thorough.maxpaths=400000 timeout=2400 unwind=40
+//verif:harness VerifC17_CacheFull quick.maxpaths=20000 thorough.maxpaths=20000 timeout=1200 steps=40000000
 //verif:harness VerifC17_Getters quick.maxpaths=20000 thorough.maxpaths=20000 timeout=1200
 
 type zzC17Root struct {
@@ -327,4 +328,30 @@ func VerifC17_Getters() {
 	if mok {
 		zzAssert(len(m) == 1, "C17.get.map-value")
 	}
+}
+
+// VerifC17_CacheFull: path resolution does not depend on how many distinct
+// paths the process has resolved before (the split cache is bounded).
+func VerifC17_CacheFull() {
+	n := []int{0, 200, 255, 256, 257, 400}[zzChoice("before", 6)]
+	root := zzC17Value()
+	items := make([]any, 4)
+	for i := range items {
+		items[i] = map[string]any{"leaf": map[string]any{"name": "n" + strconv.Itoa(i)}}
+	}
+	root["items"] = items
+	s := NewStack(root)
+	for i := 0; i < n; i++ {
+		_, _ = s.Resolve("filler" + strconv.Itoa(i) + ".x[" + strconv.Itoa(i) + "]")
+	}
+	probes := []string{"items[2].leaf.name", "a.b[2].c", "sl[1]", "p.X", "a.m.k", "items[3]['leaf'].name"}
+	wants := []string{"n2", "1", "y", "5", "v", "n3"}
+	k := zzChoice("probe", len(probes))
+	got, ok := s.Resolve(probes[k])
+	zzNote("path", probes[k])
+	zzAssert(ok, "C17.cachefull.presence")
+	zzAssert(fmt.Sprint(got) == wants[k], "C17.cachefull.value")
+	cnt := 0
+	_ = s.ForEach("items[1].leaf", func(i int, v any) error { cnt++; return nil })
+	zzAssert(cnt == 1, "C17.cachefull.foreach")
 }
